@@ -79,17 +79,17 @@ inductive NameCandidate where
   | other
   deriving Repr, Inhabited
 
-/-- `vertex_type_iter` (adapter/mod.rs:78–113): never yields the root query type. -/
+/-- `schema.vertex_types.get(name)` followed by the exclusion of the root query type. -/
+def candidateVertex (s : Schema) (n : Name) : Option Vertex :=
+  match findType s.vertexTypes n with
+  | some d => if d.name != s.queryType.name then some (.vertexType d) else none
+  | none => none
+
+/-- `vertex_type_iter` (adapter/mod.rs:78–113): never yields the root query type.  With a
+`Multiple` candidate it yields one vertex per *element* of the candidate list. -/
 def vertexTypeIter (s : Schema) : NameCandidate → List Vertex
-  | .single n =>
-    match findType s.vertexTypes n with
-    | some d => if d.name != s.queryType.name then [.vertexType d] else []
-    | none => []
-  | .multiple ns =>
-    ns.filterMap fun n =>
-      match findType s.vertexTypes n with
-      | some d => if d.name != s.queryType.name then some (.vertexType d) else none
-      | none => none
+  | .single n => (candidateVertex s n).toList
+  | .multiple ns => ns.filterMap (candidateVertex s)
   | .other =>
     (s.vertexTypes.filter (fun t => t.name != s.queryType.name)).map .vertexType
 
